@@ -7,7 +7,7 @@ CONSTANTS
   Ks = {1, 2}
   Fmts = {"bc"}
   NFiles = {2}
-  Lazy = {FALSE}
+  Lazy = {"none"}
   Touches = {"lookup", "getitem"}
   Variant = "stale_ext"
 INVARIANT TypeOK
